@@ -551,8 +551,15 @@ class AbilitiesComponent(Component):
 
 # =============================================================================== loader
 def canon_proc(p):
-    """orders removed: classes sorted by unit name"""
-    return [sorted(p[0]), sorted(p[1]), sorted(p[2]), sorted(p[3])]
+    """orders removed (no property except C12 speaks of a listing order, and C12 is judged by its own
+    checkers): classes sorted by unit name; capability, memory and predecessor lists as sorted lists"""
+    def cu(u):
+        return [u[0], u[1], sorted(u[2]), u[3], u[4], sorted(u[5])]
+
+    def cf(f):
+        return [cu(f[0]), sorted(f[1])]
+    return [sorted(cu(u) for u in p[0]), sorted(cf(f) for f in p[1]),
+            sorted(cu(u) for u in p[2]), sorted(cf(f) for f in p[3])]
 
 
 class LoaderComponent(Component):
